@@ -193,7 +193,7 @@ class Run:
         # audit
         audit_dir = os.path.join(LEAN, '.lake', 'audit')
         os.makedirs(audit_dir, exist_ok=True)
-        path = os.path.join(audit_dir, 'Audit_%s.lean' % (tag or self.prop))
+        path = os.path.join(audit_dir, 'Audit_%s_%d.lean' % (tag or self.prop, os.getpid()))   # private to this run: concurrent runs must not clobber each other
         with open(path, 'w') as f:
             f.write('import %s\n' % props_module)
             for n in names:
@@ -206,6 +206,10 @@ class Run:
         for m in re.finditer(r"'([^']+)' does not depend on any axioms", out):
             axioms[m.group(1)] = []
         self.axioms.update(axioms)
+        try:
+            os.remove(path)
+        except OSError:
+            pass
         all_ok = True
         for n in names:
             if n not in axioms:
@@ -320,7 +324,7 @@ class Run:
         n_ok = len([o for o in self.obligations if o['ok']])
         coverage = {
             'obligations': n_ob, 'discharged': n_ok,
-            'checker_cmd': 'cd lean && lake build MaltModel.Props.%s drv_%s && lake env lean .lake/audit/Audit_%s.lean' % (self.prop, self.prop.lower(), self.prop)
+            'checker_cmd': 'cd lean && lake build MaltModel.Props.%s drv_%s && lake env lean .lake/audit/Audit_%s_<pid>.lean' % (self.prop, self.prop.lower(), self.prop)
                            + (' && lake env leanchecker MaltModel.Props.%s' % self.prop if self.tier == 'thorough' else ''),
             'trusted_base': TRUSTED_BASE + self.assumptions,
             'evaluations': self.evaluations,
